@@ -255,9 +255,26 @@ def run(ctx):
         cands = ctx.fns_matching(r"^<T as darling_core::usage::type_params::CollectTypeParams>::collect_type_params$")
         f = cands[0] if cands else None
         if f:
-            fold = ctx.find_calls(f, r"Iterator::fold|Iterator>::fold")
-            okc = any(ctx.find_calls(c, r"union_in_place$") and ctx.find_calls(c, r"UsesTypeParams>::uses_type_params$|UsesTypeParams::uses_type_params$") for c in ctx.closures_of(f))
-            ctx.ob("C19.P.union-over-members", f.key, "fold(empty, |s, v| union(s, v.walk()))", len(fold) == 1 and okc, "%d folds" % len(fold))
+            # every member is walked and its answer united into the result: as a fold over the
+            # members or as a `for` loop over them
+            un = ctx.find_calls_deep(f, r"union_in_place$")
+            ok = len(un) == 1
+            why = "%d union_in_place calls" % len(un)
+            if ok:
+                blk, t, owner = un[0]
+                walked = ctx.expr(owner, t["args"][1])
+                ok = re.search(r"UsesTypeParams(>)?::uses_type_params\(", walked) is not None
+                if owner is f:
+                    nxt = t.get("target")
+                    in_loop = nxt is not None and blk in f.reachable(nxt, False)
+                    it = [ctx.expr(f, t2["args"][0]) for _, t2 in ctx.find_calls(f, r"Iterator>::next$|Iterator::next$")]
+                    ok = ok and in_loop and any("into_iter(self)" in x.replace("IntoIterator>::into_iter", "into_iter").replace("IntoIterator::into_iter", "into_iter") for x in it)
+                    why = "for-loop form: union(%s) in loop=%s over %s" % (walked[:80], in_loop, [x[:80] for x in it])
+                else:
+                    fold = [t2 for _, t2 in ctx.find_calls(f, r"Iterator::fold|Iterator>::fold") if owner.key in ctx.expr(f, t2["args"][2])]
+                    ok = ok and len(fold) == 1 and "into_iter(self)" in ctx.expr(f, fold[0]["args"][0]).replace("IntoIterator>::into_iter", "into_iter").replace("IntoIterator::into_iter", "into_iter")
+                    why = "fold form: %d folds, union(%s)" % (len(fold), walked[:80])
+            ctx.ob("C19.P.union-over-members", f.key, "result = union over members of member.walk()", ok, why)
         else:
             ctx.anchor_missing("C19.P.union-over-members", key, "not found")
     f = ctx.fn("darling_core::usage::type_params::union_in_place")
